@@ -604,12 +604,20 @@ pub fn ttl_generations(readers: usize, generations: u64) -> Outcome {
 
 // ---- C04 / C08 / C10 / C11: mixed real-thread workload, state oracles after quiescence ---
 
+#[allow(clippy::too_many_arguments)]
 pub fn mixed(prop: &str, threads: usize, ops: u64, nkeys: u32, cap: Option<u64>, weigher: bool, ttl_ms: Option<u64>, seed: u64) -> Outcome {
+    mixed_h(prop, threads, ops, nkeys, cap, weigher, ttl_ms, seed, false)
+}
+
+/// `one_shard`: every key hashes to the same value, so all keys live in one shard of
+/// the map and every map operation contends on one lock.
+#[allow(clippy::too_many_arguments)]
+pub fn mixed_h(prop: &str, threads: usize, ops: u64, nkeys: u32, cap: Option<u64>, weigher: bool, ttl_ms: Option<u64>, seed: u64, one_shard: bool) -> Outcome {
     use crate::subject::{build_sync_cache, sync_snapshot, weight_of};
     use crate::track::{Reg, TK, TV};
     use crate::types::*;
     use mini_moka::sync::ConcurrentCacheExt;
-    let cfg = Cfg { kind: Kind::Sync, cap, weigher: if weigher { WeigherKind::Value } else { WeigherKind::None }, ttl: ttl_ms.map(|m| m * MS), tti: None, hasher: HasherKind::Sip, init_cap: None, nkeys };
+    let cfg = Cfg { kind: Kind::Sync, cap, weigher: if weigher { WeigherKind::Value } else { WeigherKind::None }, ttl: ttl_ms.map(|m| m * MS), tti: None, hasher: if one_shard { HasherKind::Collide } else { HasherKind::Sip }, init_cap: None, nkeys };
     let reg = Reg::new();
     let cache = build_sync_cache(&cfg);
     let barrier = Arc::new(Barrier::new(threads));
@@ -647,7 +655,7 @@ pub fn mixed(prop: &str, threads: usize, ops: u64, nkeys: u32, cap: Option<u64>,
             panicked = true;
         }
     }
-    let params = serde_json::json!({"workload": "mixed", "threads": threads, "ops_per_thread": ops, "keys": nkeys, "max_capacity": cap, "weigher": weigher, "ttl_ms": ttl_ms, "seed": seed});
+    let params = serde_json::json!({"workload": "mixed", "threads": threads, "ops_per_thread": ops, "keys": nkeys, "max_capacity": cap, "weigher": weigher, "ttl_ms": ttl_ms, "seed": seed, "one_shard": one_shard});
     let mut violation = None;
     if panicked {
         if prop == "C08" {
@@ -755,6 +763,11 @@ pub fn stress_worker(a: &WorkerArgs) -> WorkerResult {
                     break;
                 }
             }
+            // all keys in one shard of the map: maximal lock contention
+            if res.violation.is_none() {
+                let o = mixed_h(&a.prop, 6, 6_000 * scale, 24, if a.idx % 2 == 0 { None } else { Some(16) }, false, None, splitmix(x ^ 99), true);
+                add(o, &mut res, 10);
+            }
         }
         "C16" => {
             let plans: [(u64, usize, usize, Option<usize>, bool); 4] = [(64, 2, 2, None, false), (1000, 4, 2, Some(0), true), (7, 1, 4, Some(7), false), (5000, 8, 1, None, true)];
@@ -810,7 +823,7 @@ pub fn replay(found: &Found) -> Option<crate::exec::Violation> {
             Some("invalidation_race") => invalidation_race(g("invalidators") as usize, g("writers") as usize, g("readers") as usize, g("rounds"), g("keys")),
             Some("ttl_generations") => ttl_generations(g("readers") as usize, g("generations")),
             Some("ttl_race") => ttl_race(g("ttl_ms"), g("keys"), g("readers") as usize, g("rounds")),
-            Some("mixed") => mixed(&found.property, g("threads") as usize, g("ops_per_thread"), g("keys") as u32, p.get("max_capacity").and_then(|v| v.as_u64()), p.get("weigher").and_then(|v| v.as_bool()).unwrap_or(false), p.get("ttl_ms").and_then(|v| v.as_u64()), g("seed")),
+            Some("mixed") => mixed_h(&found.property, g("threads") as usize, g("ops_per_thread"), g("keys") as u32, p.get("max_capacity").and_then(|v| v.as_u64()), p.get("weigher").and_then(|v| v.as_bool()).unwrap_or(false), p.get("ttl_ms").and_then(|v| v.as_u64()), g("seed"), p.get("one_shard").and_then(|v| v.as_bool()).unwrap_or(false)),
             Some("coherence") => coherence(g("threads") as usize, g("ops_per_thread"), g("keys") as u8, g("seed"), p.get("max_capacity").and_then(|v| v.as_u64())),
             _ => return None,
         };
